@@ -14,6 +14,29 @@ CT = {'INTEGER': real.CellType.INTEGER, 'LONG': real.CellType.LONG, 'SINGLE': re
       'DOUBLE': real.CellType.DOUBLE, 'STRING': real.CellType.STRING}
 
 
+CONTROL = '\t\n\r'
+
+
+def qb_string(v, raw_tab=False):
+    """a QBASIC expression whose value is the string v (control characters through CHR$; a TAB may also stand in the literal)"""
+    if not any(c in CONTROL for c in v):
+        return '"' + v + '"'
+    if raw_tab and '\n' not in v and '\r' not in v:
+        return '"' + v + '"'
+    parts, cur = [], ''
+    for c in v:
+        if c in CONTROL:
+            if cur:
+                parts.append('"' + cur + '"')
+                cur = ''
+            parts.append(f'CHR$({ord(c)})')
+        else:
+            cur += c
+    if cur:
+        parts.append('"' + cur + '"')
+    return ' + '.join(parts)
+
+
 def gen_items(rng, maxn=8):
     """item = ('v', type, value) | (';',) | (',',)"""
     n = rng.choice([0, 1, 1, 2, 3, 4, 5, 6, maxn])
@@ -31,6 +54,10 @@ def gen_items(rng, maxn=8):
                 v = v.replace('"', '')
                 if rng.random() < 0.3:
                     v = v * rng.randint(1, 3)
+                if rng.random() < 0.12:
+                    # a string item is written verbatim, whatever it contains: a TAB, LF or CR is one character of it
+                    k = rng.randint(0, len(v))
+                    v = v[:k] + rng.choice(CONTROL) + v[k:]
             items.append(('v', ty, v))
     return items
 
@@ -116,7 +143,13 @@ def program_for(rng, items, literal_bias=0.4):
         name = f'v{k}{values.TYPE_CHAR[ty]}'
         how = rng.random()
         if ty == 'STRING':
-            if how < literal_bias:
+            if any(c in CONTROL for c in v):
+                if how < 0.5:
+                    exprs.append('(' + qb_string(v, rng.random() < 0.5) + ')')
+                else:
+                    lines.append(f'{name} = {qb_string(v, rng.random() < 0.5)}')
+                    exprs.append(name)
+            elif how < literal_bias:
                 exprs.append('"' + v + '"')
             elif how < 0.7 and len(v) >= 2:
                 lines.append(f'{name} = "{v[:1]}" + "{v[1:]}"')
@@ -263,9 +296,12 @@ def run(chk):
     E = ('v', 'STRING', '')
     A = ('v', 'STRING', 'ab')
     N7 = ('v', 'INTEGER', 7)
+    T1, T2, T3 = ('v', 'STRING', 'a\tb'), ('v', 'STRING', 'abc\nde'), ('v', 'STRING', 'abcdef\r')
     EDGE = [[A, (';',), E], [N7, (',',), E], [(';',), E], [A, (';',), (';',), E, (';',), E], [E], [E, (';',)], [E, (',',), E], [E, (';',), A],
             [A, (',',), E, (',',), N7], [E, (';',), E, (';',), E], [N7, (';',), E, (';',)], [(',',), (',',), E], [A, (';',), E, (',',)],
-            [E, (';',), N7], [N7, (';',), E, (';',), N7]]
+            [E, (';',), N7], [N7, (';',), E, (';',), N7],
+            # control characters inside string items (one character each, written verbatim; zones count them as one column)
+            [T1], [T1, (',',), A], [A, (';',), T1, (',',), N7], [T2, (',',), A], [T3, (',',), N7], [T1, (';',)], [A, (',',), T2, (',',), T3]]
     edge_done = []
 
     def compiled_round(n, literal_bias):
@@ -274,7 +310,7 @@ def run(chk):
         if not edge_done:
             edge_done.append(1)
             for items in EDGE:
-                for _ in range(2):
+                for _ in range(3):
                     src = program_for(rng, items, 1.0)
                     if src is not None:
                         tasks.append((src, items))
